@@ -11,13 +11,13 @@ Open Scope Z_scope.
 (* a save that succeeds leaves the image object exactly as it was — every harmonised state,
    with or without a pending dtype alias *)
 Theorem C07_success_preserves :
-  forall o resolve dt_ok wfail scale nslabs exts nmat D K od i,
+  forall o oserr resolve dt_ok wfail scale nslabs exts nmat D K od i,
   harmonised K i ->
-  forall s', run_save o resolve dt_ok wfail scale nslabs exts nmat D K od i = (Ok tt, s') ->
+  forall s', run_save o oserr resolve dt_ok wfail scale nslabs exts nmat D K od i = (Ok tt, s') ->
   rimg s' = i.
 Proof.
-  intros o resolve dt_ok wfail scale nslabs exts nmat D K od i Hh s' E.
-  pose proof (preserved o resolve dt_ok wfail scale nslabs exts nmat D K od i Hh) as H.
+  intros o oserr resolve dt_ok wfail scale nslabs exts nmat D K od i Hh s' E.
+  pose proof (preserved o oserr resolve dt_ok wfail scale nslabs exts nmat D K od i Hh) as H.
   rewrite E in H. exact H.
 Qed.
 Print Assumptions C07_success_preserves.
@@ -26,13 +26,13 @@ Print Assumptions C07_success_preserves.
    the run ends with (OSError, WriterError, HeaderDataError, ValueError): the image object
    is exactly as it was — offset, datatype, slope, intercept, magic, alias, data, affine *)
 Theorem C07_fault_preserves :
-  forall o resolve dt_ok wfail scale nslabs exts nmat D K od i,
+  forall o oserr resolve dt_ok wfail scale nslabs exts nmat D K od i,
   harmonised K i ->
-  forall e s', run_save o resolve dt_ok wfail scale nslabs exts nmat D K od i = (Err e, s') ->
+  forall e s', run_save o oserr resolve dt_ok wfail scale nslabs exts nmat D K od i = (Err e, s') ->
   rimg s' = i.
 Proof.
-  intros o resolve dt_ok wfail scale nslabs exts nmat D K od i Hh e s' E.
-  pose proof (preserved o resolve dt_ok wfail scale nslabs exts nmat D K od i Hh) as H.
+  intros o oserr resolve dt_ok wfail scale nslabs exts nmat D K od i Hh e s' E.
+  pose proof (preserved o oserr resolve dt_ok wfail scale nslabs exts nmat D K od i Hh) as H.
   rewrite E in H. exact H.
 Qed.
 Print Assumptions C07_fault_preserves.
@@ -42,26 +42,26 @@ Print Assumptions C07_fault_preserves.
    the original image: same outcome, same calls, same symbolic content written, same final
    state *)
 Theorem C07_retry_correct :
-  forall o o2 resolve dt_ok wfail scale nslabs exts nmat D K od od2 i,
+  forall o o2 oserr oserr2 resolve dt_ok wfail scale nslabs exts nmat D K od od2 i,
   harmonised K i ->
-  let i1 := rimg (snd (run_save o resolve dt_ok wfail scale nslabs exts nmat D K od i)) in
-  run_save o2 resolve dt_ok wfail scale nslabs exts nmat D K od2 i1 =
-  run_save o2 resolve dt_ok wfail scale nslabs exts nmat D K od2 i.
+  let i1 := rimg (snd (run_save o oserr resolve dt_ok wfail scale nslabs exts nmat D K od i)) in
+  run_save o2 oserr2 resolve dt_ok wfail scale nslabs exts nmat D K od2 i1 =
+  run_save o2 oserr2 resolve dt_ok wfail scale nslabs exts nmat D K od2 i.
 Proof. exact retry_same. Qed.
 Print Assumptions C07_retry_correct.
 
 (* two saves of an unchanged image to healthy destinations: same outcome and same content,
    and the second leaves the state the first left *)
 Theorem C07_deterministic :
-  forall resolve dt_ok wfail scale nslabs exts nmat D K od i,
+  forall oserr resolve dt_ok wfail scale nslabs exts nmat D K od i,
   harmonised K i ->
   forall r1 s1 r2 s2,
-  run_save healthy resolve dt_ok wfail scale nslabs exts nmat D K od i = (r1, s1) ->
-  run_save healthy resolve dt_ok wfail scale nslabs exts nmat D K od (rimg s1) = (r2, s2) ->
+  run_save healthy oserr resolve dt_ok wfail scale nslabs exts nmat D K od i = (r1, s1) ->
+  run_save healthy oserr resolve dt_ok wfail scale nslabs exts nmat D K od (rimg s1) = (r2, s2) ->
   r2 = r1 /\ rlog s2 = rlog s1 /\ rimg s2 = rimg s1.
 Proof.
-  intros resolve dt_ok wfail scale nslabs exts nmat D K od i Hh r1 s1 r2 s2 E1 E2.
-  pose proof (retry_same healthy healthy resolve dt_ok wfail scale nslabs exts nmat D K od od i Hh) as H.
+  intros oserr resolve dt_ok wfail scale nslabs exts nmat D K od i Hh r1 s1 r2 s2 E1 E2.
+  pose proof (retry_same healthy healthy oserr oserr resolve dt_ok wfail scale nslabs exts nmat D K od od i Hh) as H.
   cbv zeta in H. rewrite E1 in H. cbn [snd] in H. rewrite E2 in H.
   injection H as -> ->. auto.
 Qed.
@@ -79,7 +79,7 @@ Example C07_nonvacuous :
   let K := mkK FAnalyze true 348 true true true 1 false in
   let i := mkImg (mkHdr 0 4 SNan SNan 1) None 7 9 in
   let j := mkImg (mkHdr 0 8 SNan SNan 1) (Some Smallest) 7 9 in
-  let run x o := run_save o (fun _ _ => Some 2) (fun _ => true) (fun _ _ => false)
+  let run x o := run_save o true (fun _ _ => Some 2) (fun _ => true) (fun _ _ => false)
                  (fun _ _ => (SVal 11, SVal 22)) (fun _ => 2%nat) [] 0%nat (mkDest false false false) K None x in
   harmonised K i /\ harmonised K j /\
   fst (run i healthy) = Ok tt /\ rk (snd (run i healthy)) = 6%nat /\ rimg (snd (run i healthy)) = i /\
